@@ -64,6 +64,30 @@ def _run(node, tier, seed):
             for asg, ret, R in enum:
                 assess_one(ctx, space, node, comp, args, asg, ret, R, pool, feats)
             ctx.sample(dict(program=node.name, args=args_key(args), assignments=len(enum), first=gfi.asg_key(enum[0][0]), ref_score=enum[0][2].score()))
+        # trace scores of importance traces under partial constraints (the trace's score is the joint
+        # log-density of ALL its choices, constrained or not)
+        from .c03 import constraints_for, BOUNDS as B3
+        from ..grammar import Missing as _Missing
+
+        enum0 = prog.enumerate_ref(alph[0])
+        singles = [c for c in constraints_for(enum0, B3["quick"]) if len(c) == 1][: (3 if tier == "quick" else 8)]
+        for c in singles:
+            try:
+                outs = space.generate(alph[0], c, max_paths=256)
+            except seam.TreeCapped:
+                ctx.cap("importance tree capped")
+                continue
+            except Exception as e:
+                ctx.note(f"importance_raised_{type(e).__name__}")
+                continue
+            for st, p in outs:
+                ctx.ev((node.name, "importance", args_key(alph[0]), gfi.asg_key(c), gfi.asg_key(st.asg)), nontrivial=True)
+                try:
+                    _, R = grammar.ref_run(node, alph[0], st.asg)
+                except _Missing:
+                    continue
+                if not close(st.score, R.score()):
+                    ctx.fail(comp, "importance", "partial_constraint", "trace_score", dict(program=node.name, args=args_key(alph[0]), constraint=gfi.asg_key(c), trace=gfi.asg_key(st.asg), impl=st.score, ref=R.score()))
         # trace scores along the simulate tree
         try:
             tree = gfi.SimTree(prog, alph[0], base_key(seed), max_paths=b["max_assignments"] * 4)
